@@ -4,6 +4,7 @@ use crate::evidence::Ctx;
 
 pub mod c09;
 pub mod c11;
+pub mod c12;
 pub mod c15;
 pub mod c16;
 pub mod c17;
@@ -14,6 +15,7 @@ pub fn run(ctx: &mut Ctx) -> Result<(), String> {
     match ctx.prop.as_str() {
         "C09" => c09::run(ctx),
         "C11" => c11::run(ctx),
+        "C12" => c12::run(ctx),
         "C15" => c15::run(ctx),
         "C16" => c16::run(ctx),
         "C17" => c17::run(ctx),
